@@ -27,7 +27,7 @@
                                  decodes as an account (the callback-less
                                  request would win the merge).
    [C19_complete_refuted] shows that without them the statement is false. *)
-From VF.C19 Require Import Model Proofs ProofsInv ProofsMain.
+From VF.C19 Require Import Model Proofs ProofsInv ProofsMain ProofsCollide ProofsCaller.
 Local Open Scope N_scope.
 
 (* 1. closed at every point: after every history - hence after every Commit,
@@ -107,6 +107,99 @@ Theorem C19_complete_refuted : ~ C19_full_statement.
 Proof. exact full_statement_refuted. Qed.
 Print Assumptions C19_complete_refuted.
 
+(* 7. completeness and "never partial" in the disjunctive form of the property:
+   no assumption on the hash function; either the closure is present or two
+   distinct blobs with equal hash are exhibited among the entries of the run's
+   own store ([collision_in]: found by the executable search [find_collision]) *)
+Theorem C19_complete_or_collision_holds_outside :
+  forall H dec cb root, no_zero H -> raw_node_separate H dec cb -> storage_account_separate H dec cb ->
+  forall db0 ops, OC H dec cb db0 -> Forall (honest_op H) ops ->
+  let s := run H dec root cb db0 ops in
+  (pending s = 0 ->
+     root = empty_root \/ Complete dec cb (store_of s) root \/ collision_in H (store_of s)) /\
+  (forall k, let l := rev (firstn k (s_mem s)) ++ s_db s in
+     (forall h, has l h = true -> Complete dec cb l h) \/ collision_in H l).
+Proof. exact run_complete_or_collision. Qed.
+Print Assumptions C19_complete_or_collision_holds_outside.
+
+(* identical content, disjunctive: a complete destination and a complete source
+   whose entries hash to their keys agree on the whole closure of the root, or a
+   collision is exhibited among their entries *)
+Theorem C19_identical_content_or_collision :
+  forall H dec cb db src, all_hash_ok H db -> all_hash_ok H src ->
+  forall r, Complete dec cb db r -> Complete dec cb src r ->
+  (forall x, (Reach dec cb db r x <-> Reach dec cb src r x) /\
+             (Reach dec cb db r x -> get db x = get src x)) \/
+  collision_in H (db ++ src).
+Proof. exact same_closure_or_collision. Qed.
+Print Assumptions C19_identical_content_or_collision.
+
+(* 8. the caller (trieSync.fillTasks / process / commit and the dispatcher of
+   runTrieSync) as a state machine over the Sync model; events: a peer is assigned
+   tasks, a packet arrives, a peer drops, a request times out, the loop processes
+   the next finished request, the loop commits, the loop ends (commit(true)).
+   8a. whatever arrives, only blobs whose hash is pending reach the scheduler
+   with any effect: a blob with another hash leaves scheduler and counters as
+   they are; an undecodable one aborts the loop; a packet from a peer without an
+   active request is dropped whole *)
+Theorem C19_caller_unrequested_blob_ignored :
+  forall H dec blen s t num bytes qt b r succ,
+  find_req (s_reqs s) (H b) = None ->
+  proc_blobs H dec blen (mkCaller s t num bytes) qt (b :: r) succ =
+  proc_blobs H dec blen (mkCaller s t num bytes) (task_del qt (H b)) r succ.
+Proof. exact proc_blob_unrequested. Qed.
+Print Assumptions C19_caller_unrequested_blob_ignored.
+
+Theorem C19_caller_unsolicited_packet_dropped :
+  forall H dec blen ideal m p blobs, active_get (m_active m) p = None ->
+  mstep H dec blen ideal m (EPack p blobs) = m.
+Proof. exact unsolicited_dropped. Qed.
+Print Assumptions C19_caller_unsolicited_packet_dropped.
+
+(* 8b. a task nobody answered is queued again, and unless the peer answered with
+   an explicitly empty packet (timeout, drop: resp = None) that peer is no longer
+   marked as tried, i.e. fillTasks may hand it the task again; the only other
+   outcome of process is an error that ends the loop *)
+Theorem C19_caller_unanswered_requeued :
+  forall H dec blen c req resp npeers c' succ,
+  cprocess H dec blen c req resp npeers = (c', (succ, CNone)) ->
+  forall h a, In (h, a) (q_tasks req) ->
+    ~ In h (map H (match resp with Some l => l | None => [] end)) ->
+    exists a', task_get (c_tasks c') h = Some a' /\
+               (resp <> Some [] -> tried (q_peer req) a' = false).
+Proof. exact unanswered_requeued. Qed.
+Print Assumptions C19_caller_unanswered_requeued.
+
+(* 8c / 9. interruption at the downloader's real flush points: after ANY event
+   sequence the database is ordered-closed with any prefix of the membatch
+   written (crash), and after the deferred commit(true) (cancel, error, normal
+   end) the membatch is empty, the database ordered-closed and whatever it holds
+   has its closure (or a collision is exhibited) *)
+Theorem C19_caller_closed_holds_outside :
+  forall H dec blen ideal cb root, no_zero H -> raw_node_separate H dec cb -> storage_account_separate H dec cb ->
+  forall db0 evs, OC H dec cb db0 ->
+  let s := c_sched (m_c (mrun H dec blen ideal root cb db0 evs)) in
+  let s' := c_sched (m_c (mrun H dec blen ideal root cb db0 (evs ++ [ECancel]))) in
+  (forall k, OC H dec cb (rev (firstn k (s_mem s)) ++ s_db s)) /\
+  OC H dec cb (s_db s') /\ s_mem s' = [] /\
+  ((forall h, has (s_db s') h = true -> Complete dec cb (s_db s') h) \/ collision_in H (s_db s')).
+Proof. exact caller_closed. Qed.
+Print Assumptions C19_caller_closed_holds_outside.
+
+(* 8d. the loop ends without error only with Pending() = 0, and then the
+   database (after commit(true)) holds the closure of the root, or a collision
+   is exhibited in it *)
+Theorem C19_caller_complete_holds_outside :
+  forall H dec blen ideal cb root, no_zero H -> raw_node_separate H dec cb -> storage_account_separate H dec cb ->
+  forall db0 evs, OC H dec cb db0 ->
+  let m := mrun H dec blen ideal root cb db0 evs in
+  let s' := c_sched (m_c (mrun H dec blen ideal root cb db0 (evs ++ [ECancel]))) in
+  running m = false -> m_err m = CNone ->
+  pending s' = 0 /\
+  (root = empty_root \/ Complete dec cb (s_db s') root \/ collision_in H (s_db s')).
+Proof. exact caller_complete. Qed.
+Print Assumptions C19_caller_complete_holds_outside.
+
 (* ---- non-vacuity ------------------------------------------------------------------- *)
 
 (* a world that meets every hypothesis, with a history containing an unrequested
@@ -143,3 +236,16 @@ Example C19_nonvacuous_witness :
   pending wrun = 0 /\ s_mem wrun = [] /\ has (s_db wrun) 11 = true /\ has (s_db wrun) 15 = false.
 Proof. vm_compute. auto. Qed.
 Print Assumptions C19_nonvacuous_witness.
+
+(* a downloader run in the same world: unsolicited packet, unasked blob, timeout
+   and re-assignment, duplicate blob, dropped peer, completion and the final flush *)
+Example C19_nonvacuous_caller :
+  let m := mrun wH gdec g_blen g_ideal 11 true [] gevs in
+  let m7 := mrun wH gdec g_blen g_ideal 11 true [] (firstn 7 gevs) in
+  let mc := mrun wH gdec g_blen g_ideal 11 true [] (gevs ++ [ECancel]) in
+  running m = false /\ m_err m = CNone /\ pending (c_sched (m_c m)) = 0 /\
+  s_db (c_sched (m_c m)) = [] /\ length (s_mem (c_sched (m_c m))) = 6%nat /\
+  s_db (c_sched (m_c mc)) = [(11, 1); (13, 3); (14, 4); (15, 5); (12, 2); (16, 6)] /\
+  running m7 = true /\ c_tasks (m_c m7) = [(13, []); (12, [])] /\ m_active m7 = [].
+Proof. exact g_caller_run. Qed.
+Print Assumptions C19_nonvacuous_caller.
